@@ -243,7 +243,7 @@ class Build:
             add = ""
             for f in files:
                 suffix = f[len(stem):-3]          # "" or "_<s>"
-                add += '\n#[cfg(%s)]\n#[path = "%s"]\n#[allow(dead_code, unused_imports, unused_macros)]\nmod verif_kani%s;\n' % (
+                add += '\n#[cfg(%s)]\n#[path = "%s"]\n#[allow(dead_code, unused_imports, unused_macros)]\npub(crate) mod verif_kani%s;\n' % (
                     GUARD, os.path.join(kdir, f), suffix)
             if not add:
                 continue
